@@ -194,3 +194,66 @@ Lemma inverted_order_deadlocks :
   lock_order_ok es = false /\ followsb es inverted_state = true /\
   forallb (fun i => match blocker inverted_state i with Some _ => true | None => false end) [0; 1; 2; 3] = true.
 Proof. vm_compute. repeat split; reflexivity. Qed.
+
+(** ---- every state an execution reaches follows the relation: the two theorems above therefore hold
+    along every execution of any number of threads, from the state in which nobody holds anything *)
+Lemma in_set_thread st : forall t th x, In x (set_thread st t th) -> x = th \/ In x st.
+Proof.
+  induction st as [|y r IH]; intros t th x H; cbn in H; [contradiction|].
+  destruct t as [|t']; cbn in H.
+  - destruct H as [H|H]; [left; symmetry; exact H|right; right; exact H].
+  - destruct H as [H|H]; [right; left; exact H|]. destruct (IH _ _ _ H) as [E|E]; [left; exact E|right; right; exact E].
+Qed.
+
+Lemma in_remove_lock l ls : forall x, In x (remove_lock l ls) -> In x ls.
+Proof.
+  induction ls as [|y r IH]; intros x H; cbn in H; [contradiction|].
+  destruct (lock_eqb l y); [right; exact H|]. destruct H as [H|H]; [left; exact H|right; apply IH; exact H].
+Qed.
+
+Lemma edge_in_In es a b : edge_in es a b = true -> In (a, b) es.
+Proof.
+  unfold edge_in. intros H. apply existsb_exists in H. destruct H as ([x y] & Hin & He). cbn in He.
+  apply andb_true_iff in He. destruct He as [H1 H2]. apply String.eqb_eq in H1. apply String.eqb_eq in H2. subst. exact Hin.
+Qed.
+
+Lemma lstep_follows es st op st' : follows es st -> lstep es st op = Some st' -> follows es st'.
+Proof.
+  intros Hf H. destruct op as [t l|t l]; cbn in H.
+  - destruct (nth_error st t) as [th|] eqn:Ht; [|discriminate].
+    destruct (allowed es th l && _) eqn:Ha; [|discriminate]. apply andb_true_iff in Ha. destruct Ha as [Hal _].
+    destruct (is_free st l); injection H as <-; intros th0 l0 h Hin Hw Hh;
+      (destruct (in_set_thread _ _ _ _ Hin) as [E|E]; [subst th0; cbn in Hw, Hh|exact (Hf th0 l0 h E Hw Hh)]).
+    + discriminate.
+    + injection Hw as <-. unfold allowed in Hal. rewrite forallb_forall in Hal. apply edge_in_In. apply Hal. exact Hh.
+  - destruct (nth_error st t) as [th|] eqn:Ht; [|discriminate].
+    destruct (want th) eqn:Hw0; [discriminate|]. destruct (holdsb th l); [|discriminate]. injection H as <-.
+    intros th0 l0 h Hin Hw Hh. destruct (in_set_thread _ _ _ _ Hin) as [E|E]; [subst th0; cbn in Hw; discriminate|exact (Hf th0 l0 h E Hw Hh)].
+Qed.
+
+Lemma idle_follows es n : follows es (idle_threads n).
+Proof. intros th l h Hin Hw _. apply repeat_spec in Hin. subst th. discriminate. Qed.
+
+Theorem lrun_follows es : forall ops st st', follows es st -> lrun es st ops = Some st' -> follows es st'.
+Proof.
+  induction ops as [|op r IH]; intros st st' Hf H; cbn in H; [injection H as <-; exact Hf|].
+  destruct (lstep es st op) as [st1|] eqn:Hs; [|discriminate]. eapply IH; [eapply lstep_follows; eassumption|exact H].
+Qed.
+
+Theorem executions_never_deadlock n ops st :
+  lrun lock_edges (idle_threads n) ops = Some st ->
+  (forall i, ~ clos_trans nat (waits_for st) i i) /\
+  (forall i, blocker st (chase (bound (compute_ranks lock_edges)) st i) = None).
+Proof.
+  intros H. assert (Hf : follows lock_edges st) by (eapply lrun_follows; [apply idle_follows|exact H]).
+  split; [apply extracted_no_cycle; exact Hf|intros i; apply extracted_chains_end; exact Hf].
+Qed.
+
+(** an execution with waiting in it: a stop request takes the proxy's lock and waits for the tomb, the goroutine
+    that ends the tomb waits for the accept tomb, the accept loop wants the toxic collection's lock that a toxic
+    request holds *)
+Lemma stop_execution :
+  lrun lock_edges (idle_threads 4)
+       [OAcq 3 ("ToxicCollection", 0); OAcq 2 ("acceptTomb", 0); OAcq 1 ("tomb", 0); OAcq 0 ("Proxy", 0);
+        OAcq 0 ("tomb", 0); OAcq 1 ("acceptTomb", 0); OAcq 2 ("ToxicCollection", 0)]%string = Some stop_state.
+Proof. vm_compute. reflexivity. Qed.
